@@ -370,6 +370,130 @@ fn world(base: Instant, cfg: &PairCfg, vs: bool, wl: Wl) -> (StdPair, Connection
     (p, other)
 }
 
+/// A peer that talks without ever acknowledging: `n` ack-eliciting packets (PING), one at a time, so
+/// that the victim answers with thousands of ACK-only packets nobody acknowledges; then the peer
+/// acknowledges the victim's newest packets / all of them / nothing, and goes on talking.
+/// Returns (ACK-only packets the victim sent, victim still alive).
+pub fn monologue(base: Instant, vs: bool, n: usize, ack_mode: u8, quiet: bool) -> Result<(u64, bool), String> {
+    guarded(|| {
+        let mut cfg = lcfg(&LCfg::Default);
+        if quiet {
+            // the victim has nothing ack-eliciting of its own to send (no MTU probes): its ACK-only
+            // packets form one uninterrupted run
+            cfg.client.mtud = crate::sim::Mtud::Off;
+            cfg.server.mtud = crate::sim::Mtud::Off;
+        }
+        let (mut p, _) = world(base, &cfg, vs, Wl::W1);
+        let victim = if vs { SERVER } else { CLIENT };
+        let puppet_node = 1 - victim;
+        let mut g = 0;
+        while g < 3000 && !workload_done(&p) {
+            g += 1;
+            if !p.w.step() {
+                break;
+            }
+        }
+        let vch = if vs { p.sch() } else { Some(p.cch) };
+        let (Some(vch), Some(mut pup)) = (vch, puppet_for(&p, if vs { Side::Client } else { Side::Server })) else { return (0, true) };
+        p.w.deaf[puppet_node] = true;
+        p.w.blackhole[puppet_node] = true;
+        p.w.net.retain(|f| f.src != p.w.nodes[puppet_node].addr && f.dst != p.w.nodes[puppet_node].addr);
+        let (src, dst) = (p.w.nodes[puppet_node].addr, p.w.nodes[victim].addr);
+        let rec_start = p.w.recs.len();
+        let talk = |p: &mut StdPair, pup: &mut Puppet, k: usize| {
+            for _ in 0..k {
+                let d = pup.packet(2, &[WFrame::Ping]);
+                p.w.inject(src, dst, d, Duration::from_micros(200));
+                let until = p.w.t + Duration::from_micros(400);
+                let mut m = 0;
+                while m < 50 {
+                    match p.w.next_event() {
+                        Some((at, _)) if at <= until => {
+                            p.w.step();
+                            m += 1;
+                        }
+                        _ => break,
+                    }
+                }
+                p.w.t = p.w.t.max(until);
+            }
+        };
+        let pcl = p.w.nodes[puppet_node].cid_len;
+        // (packet numbers are reconstructed from the truncated form on the wire, in emission order)
+        let victim_pns = |p: &StdPair, from: usize| -> (std::collections::BTreeSet<u64>, u64) {
+            let mut largest: Option<u64> = None;
+            let mut pns = std::collections::BTreeSet::new();
+            let mut ack_only = 0u64;
+            for (i, r) in p.w.recs.iter().enumerate() {
+                if let Rec::Emit { node, data, ch: Some(_), .. } = r {
+                    if *node != victim {
+                        continue;
+                    }
+                    for (h, fr) in decode(data, pcl) {
+                        if h.ty != wire::PType::Short {
+                            continue;
+                        }
+                        let win = 1u64 << (8 * h.pn_len as u32);
+                        let exp = largest.map_or(h.pn_trunc, |l| l + 1);
+                        let mut full = (exp & !(win - 1)) | h.pn_trunc;
+                        if full + win / 2 <= exp {
+                            full += win;
+                        } else if full > exp + win / 2 && full >= win {
+                            full -= win;
+                        }
+                        largest = Some(largest.map_or(full, |l| l.max(full)));
+                        if i >= from {
+                            pns.insert(full);
+                            if !fr.is_empty() && fr.iter().all(|f| matches!(f, WFrame::Ack(_) | WFrame::Padding(_))) {
+                                ack_only += 1;
+                            }
+                        }
+                    }
+                }
+            }
+            (pns, ack_only)
+        };
+        let ack_of = |chosen: Vec<u64>| -> Option<WFrame> {
+            let mut ranges: Vec<(u64, u64)> = vec![];
+            for pn in &chosen {
+                match ranges.last_mut() {
+                    Some((lo, _)) if *lo == pn + 1 => *lo = *pn,
+                    _ => ranges.push((*pn, *pn)),
+                }
+            }
+            chosen.first().map(|l| WFrame::Ack(wire::AckF { largest: *l, delay: 0, ranges, ecn: None }))
+        };
+        if quiet {
+            // everything the victim has outstanding is acknowledged first: no probe timeouts of its own
+            let (all, _) = victim_pns(&p, 0);
+            if let Some(f) = ack_of(all.iter().rev().copied().collect()) {
+                let d = pup.packet(2, &[f]);
+                p.w.inject(src, dst, d, Duration::from_micros(200));
+            }
+        }
+        talk(&mut p, &mut pup, n);
+        // the victim's packet numbers since the puppet took over
+        let (pns, ack_only) = victim_pns(&p, rec_start);
+        // (the victim may skip packet numbers: only numbers it really used are acknowledged)
+        let chosen: Vec<u64> = match ack_mode {
+            0 => pns.iter().rev().take(6).copied().collect(),
+            1 => pns.iter().rev().copied().collect(),
+            _ => vec![],
+        };
+        if let Some(f) = ack_of(chosen) {
+            let d = pup.packet(2, &[f]);
+            p.w.inject(src, dst, d, Duration::from_micros(200));
+        }
+        let (largest, smallest) = (pns.iter().next_back().copied(), pns.iter().next().copied());
+        talk(&mut p, &mut pup, n / 2 + 10);
+        let alive = p.w.slot(victim, vch).map_or(false, |s| s.lost.is_empty());
+        if !alive && std::env::var("VERIF_DEBUG").is_ok() {
+            eprintln!("monologue vs={vs} n={n} mode={ack_mode}: lost {:?} largest={largest:?} smallest={smallest:?}", p.w.slot(victim, vch).map(|s| s.lost.clone()));
+        }
+        (ack_only, alive)
+    })
+}
+
 pub fn run_frames(base: Instant, c: &FCase, alpha: &[Hostile], dump: bool) -> Result<FOut, String> {
     guarded(|| {
         let cfg = lcfg(&c.l);
@@ -1223,6 +1347,43 @@ pub fn main(args: &Args) -> ! {
             rep.violation(Violation { signature: "panic:damaged-handshake-datagram".into(), what, replay });
         }
         rep.part("damaged_handshake_datagrams", json!({"cases": n, "capped": capped}));
+    }
+    // a peer that never acknowledges: thousands of ACK-only packets stay outstanding at the victim
+    {
+        let mut cases = vec![];
+        for vs in [true, false] {
+            for n in if thorough { vec![1100usize, 2500, 6000, 12_000] } else { vec![2500usize, 6000] } {
+                for mode in [0u8, 1, 2] {
+                    for quiet in [true, false] {
+                        cases.push((vs, n, mode, quiet));
+                    }
+                }
+            }
+        }
+        let ncases = cases.len();
+        let (res, capped) = e3(cases, dl, |(vs, n, mode, quiet)| monologue(base, *vs, *n, *mode, *quiet));
+        rep.exhaustive &= !capped;
+        let mut most = 0u64;
+        for ((vs, n, mode, quiet), r) in &res {
+            rep.evaluations += 1;
+            let rj = json!({"check":"c03","kind":"monologue","vs":vs,"n":n,"mode":mode,"quiet":quiet});
+            match r {
+                Err(e) => rep.violation(Violation { signature: "panic:unacknowledged-monologue".into(), what: format!("victim={} : the peer sent {n} PING packets without acknowledging anything, then acknowledged {} and went on: panic: {e}", if *vs { "server" } else { "client" }, ["the victim's newest packets", "everything", "nothing"][*mode as usize]), replay: rj }),
+                Ok((ao, alive)) => {
+                    most = most.max(*ao);
+                    let mut hh = std::collections::hash_map::DefaultHasher::new();
+                    (vs, n, mode, quiet, "monologue").hash(&mut hh);
+                    rep.distinct.insert(hh.finish());
+                    if !alive {
+                        rep.violation(Violation { signature: "lost:unacknowledged-monologue".into(), what: format!("victim={}: a peer that sends {n} PINGs and acknowledges late is within the protocol, yet the connection was lost", if *vs { "server" } else { "client" }), replay: rj });
+                    }
+                }
+            }
+        }
+        if most < 2000 {
+            machinery("vacuity guard: the never-acknowledging peer drew fewer than 2000 ACK-only packets");
+        }
+        rep.part("unacknowledged_monologues", json!({"cases": ncases, "most_ack_only_packets_outstanding": most, "capped": capped}));
     }
     // repetitions, sequential so that the heap counter is meaningful
     let mut rep_cases = 0;
